@@ -18,7 +18,7 @@ ASSUMPTIONS = ['supported subset only: non-negative integer coordinates, one ROU
 
 IDENT = st.sampled_from(['u1', 'U22', 'core/reg_3_', 'n_12', 'clk', 'VDD', 'VSS', 'a[3]', 'top/u5/n7', 'net42', 'x', 'inst_A', 'b_0_', 'dout[15]', 'rst_n', 'c17'])
 LAYERS = ['metal1', 'metal2', 'metal3', 'M4']
-VIANAMES = ['via1_4', 'via12', 'VIA23_X', 'via3_array']
+VIANAMES = ['via1_4', 'via12', 'VIA23_X', 'via3_array', 'N/tap', 'FS.cut', 'W[2]', 'E-E', 'SOUTHvia', 'FW_12']     # names may start like an orientation
 ORIENTS = ['N', 'S', 'E', 'W', 'FN', 'FS', 'FE', 'FW']
 COORD = st.integers(0, 200000)
 
